@@ -22,6 +22,7 @@ typedef struct {
 typedef struct {
     uint64_t looping_start_time;
     uint64_t idle_time;
+    uint64_t last_recv_time;                // when recv_events() last returned, to account idle time
     uint64_t recv_msgs;
     size_t running_modules;
 } ctx_stats_t;
